@@ -107,6 +107,64 @@ def build_c():
         lock.close()
 
 
+MSAN_CFLAGS = ['-O1', '-g', '-fno-omit-frame-pointer', '-fsanitize=memory', '-fsanitize-memory-track-origins=2', '-I' + REPO, '-I' + REPO + '/src',
+               '-DHAVE_CONFIG_H', '-D' + GUARD, '-DVH_MSAN', '-Wno-everything',
+               # clang 14 with these glibc headers has no CMPLX
+               '-DCMPLX(x,y)=__builtin_complex((double)(x),(double)(y))']
+
+
+def build_msan():
+    """the same harness and library built by clang with MemorySanitizer (reads of uninitialised memory that decide a branch, an
+    address or a system call).  libyaml and libc are not instrumented: scripts for this binary must not reach libyaml."""
+    os.makedirs(CACHE, exist_ok=True)
+    hfiles = sorted(glob.glob(VERIF + '/harness/*.[ch]')) + [VERIF + '/gen/conv2_table.inc']
+    key = tree_hash(hfiles) + hashlib.sha256(' '.join(MSAN_CFLAGS).encode()).hexdigest()[:6]
+    d = os.path.join(CACHE, 'm-' + key)
+    exe = os.path.join(d, 'vh')
+    lock = open(os.path.join(CACHE, 'm.lock'), 'w')
+    fcntl.flock(lock, fcntl.LOCK_EX)
+    try:
+        if os.path.exists(exe):
+            os.utime(d)
+            return exe
+        olds = sorted(glob.glob(CACHE + '/m-*'), key=lambda q: os.path.getmtime(q), reverse=True)
+        for k, old in enumerate(olds):
+            if k >= 2 or time.time() - os.path.getmtime(old) > 3600 or old.endswith('.tmp'):
+                shutil.rmtree(old, ignore_errors=True)
+        tmp = d + '.tmp'
+        shutil.rmtree(tmp, ignore_errors=True)
+        os.makedirs(tmp)
+        srcs = lib_sources()
+
+        def cc(f):
+            o = os.path.join(tmp, os.path.basename(f)[:-2] + '.o')
+            r = sh(['clang'] + MSAN_CFLAGS + ['-c', f, '-o', o])
+            return f, r.returncode, r.stderr
+        with ThreadPoolExecutor(16) as ex:
+            res = list(ex.map(cc, srcs))
+        bad = [(f, e) for f, rc, e in res if rc != 0]
+        if bad:
+            raise BuildError('libvna does not compile (clang, MemorySanitizer): %s\n%s' % (bad[0][0], bad[0][1][:2000]))
+        objs = [os.path.join(tmp, os.path.basename(f)[:-2] + '.o') for f in srcs]
+        r = sh(['ar', 'rcs', os.path.join(tmp, 'libvna.a')] + objs)
+        if r.returncode:
+            raise BuildError('ar failed: ' + r.stderr)
+        hsrc = sorted(glob.glob(VERIF + '/harness/*.c'))
+        wraps = ['-Wl,' + ','.join('--wrap=' + w for w in WRAPS)]
+        r = sh(['clang'] + MSAN_CFLAGS + ['-I' + VERIF + '/harness', '-I' + VERIF + '/gen'] + hsrc +
+               [os.path.join(tmp, 'libvna.a'), '-lyaml', '-lm', '-o', os.path.join(tmp, 'vh')] + wraps)
+        if r.returncode:
+            raise BuildError('MemorySanitizer harness does not link:\n' + r.stderr[:4000])
+        for o in objs:
+            os.remove(o)
+        os.remove(os.path.join(tmp, 'libvna.a'))
+        os.rename(tmp, d)
+        return exe
+    finally:
+        fcntl.flock(lock, fcntl.LOCK_UN)
+        lock.close()
+
+
 class BuildError(Exception):
     pass
 
@@ -260,8 +318,28 @@ def model_exe():
     return os.path.join(LEAN, '.lake', 'build', 'bin', 'vmodel')
 
 
+# every script a check feeds to the ASan/UBSan harness is also fed to the MemorySanitizer build (without the calls that reach the
+# uninstrumented libyaml); a read of memory the library never wrote is reported by the check at its end.  Enabled by check.py.
+SHADOW = {'exe': None, 'reports': [], 'runs': 0, 'calls': 0}
+YAML_LINE = re.compile(r'^(cal (savestr|loadstr|save|load|resave) |pt .*\b(export|import|yamltree)\b)')
+MSAN_ENV = {'MSAN_OPTIONS': 'exitcode=98:halt_on_error=1:print_stats=0:allocator_may_return_null=1:check_printf=1'}
+
+
+def msan_lines(lines, timeout=600):
+    """(reached, stderr) of the script under the MemorySanitizer harness; stderr is '' when it reports no uninitialised read"""
+    ls = [l for l in lines if not YAML_LINE.match(l)]
+    out, rc, err = run_lines(SHADOW['exe'], ls, timeout=timeout, env=MSAN_ENV)
+    SHADOW['runs'] += 1
+    SHADOW['calls'] += len(out)
+    return ls[:len(out) + 1], (err if 'use-of-uninitialized-value' in err else '')
+
+
 def run_lines(exe, lines, timeout=600, env=None):
     """feed lines, return (list of output lines, returncode, stderr)"""
+    if SHADOW['exe'] and exe != SHADOW['exe'] and os.path.basename(exe) == 'vh' and len(SHADOW['reports']) < 3:
+        reached, err = msan_lines(lines, timeout)
+        if err:
+            SHADOW['reports'].append((reached, err))
     e = dict(os.environ)
     e.setdefault('ASAN_OPTIONS', 'detect_leaks=1:abort_on_error=0:exitcode=99:allocator_may_return_null=1:max_allocation_size_mb=1024')
     e.setdefault('UBSAN_OPTIONS', 'print_stacktrace=1:halt_on_error=1')
